@@ -130,33 +130,65 @@ theorem optCondition_written (c : Option ConditionRule) (h : ∀ c', c = some c'
     rw [imOfMembers_written condKeyValuesOfJson kvsJson c (fun kv hkv => condKeyValues_written kv.2 (hin kv hkv)) hu]
     rfl
 
-/-! ## one round of the two derived `visit_map` loops, per member name -/
+/-! ## one round of the two `visit_map` loops, per member name -/
 
 theorem stmtField_sid (acc : StAcc) (v : Json) :
     stmtField acc (kSid, v) =
       if acc.sid.isSome then none else (optString v).map fun x => { acc with sid := some x } := by
   simp [stmtField]
 
+theorem stmtField_principal (acc : StAcc) (v : Json) :
+    stmtField acc (kPrincipal, v) =
+      if acc.principal.isSome then none
+      else (principalOfJson v).map fun p => { acc with principal := some (.principal p) } := by
+  simp [stmtField, kSid, kPrincipal]
+
+theorem stmtField_notPrincipal (acc : StAcc) (v : Json) :
+    stmtField acc (kNotPrincipal, v) =
+      if acc.principal.isSome then none
+      else (principalOfJson v).map fun p => { acc with principal := some (.notPrincipal p) } := by
+  simp [stmtField, kSid, kPrincipal, kNotPrincipal]
+
 theorem stmtField_effect (acc : StAcc) (v : Json) :
     stmtField acc (kEffect, v) =
       if acc.effect.isSome then none else (unitEnum effectOfName v).map fun x => { acc with effect := some x } := by
-  simp [stmtField, kEffect, kSid]
+  simp [stmtField, kSid, kPrincipal, kNotPrincipal, kEffect]
+
+theorem stmtField_action (acc : StAcc) (v : Json) :
+    stmtField acc (kAction, v) =
+      if acc.action.isSome then none else (woomOfJson v).map fun w => { acc with action := some (.action w) } := by
+  simp [stmtField, kSid, kPrincipal, kNotPrincipal, kEffect, kAction]
+
+theorem stmtField_notAction (acc : StAcc) (v : Json) :
+    stmtField acc (kNotAction, v) =
+      if acc.action.isSome then none else (woomOfJson v).map fun w => { acc with action := some (.notAction w) } := by
+  simp [stmtField, kSid, kPrincipal, kNotPrincipal, kEffect, kAction, kNotAction]
+
+theorem stmtField_resource (acc : StAcc) (v : Json) :
+    stmtField acc (kResource, v) =
+      if acc.resource.isSome then none
+      else (woomOfJson v).map fun w => { acc with resource := some (.resource w) } := by
+  simp [stmtField, kSid, kPrincipal, kNotPrincipal, kEffect, kAction, kNotAction, kResource]
+
+theorem stmtField_notResource (acc : StAcc) (v : Json) :
+    stmtField acc (kNotResource, v) =
+      if acc.resource.isSome then none
+      else (woomOfJson v).map fun w => { acc with resource := some (.notResource w) } := by
+  simp [stmtField, kSid, kPrincipal, kNotPrincipal, kEffect, kAction, kNotAction, kResource, kNotResource]
 
 theorem stmtField_condition (acc : StAcc) (v : Json) :
     stmtField acc (kCondition, v) =
       if acc.condition.isSome then none else (optCondition v).map fun x => { acc with condition := some x } := by
-  simp [stmtField, kEffect, kSid, kCondition]
+  simp [stmtField, kSid, kPrincipal, kNotPrincipal, kEffect, kAction, kNotAction, kResource, kNotResource, kCondition]
 
-theorem stmtField_other (acc : StAcc) (k : Bytes) (v : Json) (h1 : k ≠ kSid) (h2 : k ≠ kEffect)
-    (h3 : k ≠ kCondition) : stmtField acc (k, v) = some { acc with collect := acc.collect ++ [(k, v)] } := by
-  simp [stmtField, h1, h2, h3]
+/-- the member is named like none of the six blocks -/
+def foreignName (k : Bytes) : Prop :=
+  k ≠ kSid ∧ k ≠ kPrincipal ∧ k ≠ kNotPrincipal ∧ k ≠ kEffect ∧ k ≠ kAction ∧ k ≠ kNotAction ∧
+  k ≠ kResource ∧ k ≠ kNotResource ∧ k ≠ kCondition
 
-theorem actionMember_key (a : ActionRule) : (actionMember a).1 = kAction ∨ (actionMember a).1 = kNotAction := by
-  cases a <;> simp [actionMember]
-
-theorem resourceMember_key (r : ResourceRule) :
-    (resourceMember r).1 = kResource ∨ (resourceMember r).1 = kNotResource := by
-  cases r <;> simp [resourceMember]
+theorem stmtField_other (acc : StAcc) (k : Bytes) (v : Json) (h : foreignName k) : stmtField acc (k, v) = some acc := by
+  obtain ⟨h1, h2, h3, h4, h5, h6, h7, h8, h9⟩ := h
+  simp [stmtField, h1, h2, h3, h4, h5, h6, h7, h8, h9]
 
 /-! ## statement -/
 
@@ -172,127 +204,33 @@ theorem hasOneStar_eq (s : Statement) : s.hasOneStar = (s.action.isOneStar || s.
   cases s with
   | mk sid pr ef ac re co => cases ac <;> cases re <;> rfl
 
-theorem actionRuleOf_written (a : ActionRule) (h : a.isOneStar = false) (pre post : List (Bytes × Json))
-    (hpre : ∀ kv ∈ pre, kv.1 ≠ kAction ∧ kv.1 ≠ kNotAction) :
-    actionRuleOf (pre ++ actionMember a :: post) = some a := by
-  have hfind : takeVariant kAction kNotAction (pre ++ actionMember a :: post) = some (actionMember a) := by
-    unfold takeVariant
-    rw [List.find?_append]
-    have : List.find? (fun kv : Bytes × Json => decide (kv.1 = kAction) || decide (kv.1 = kNotAction)) pre = none := by
-      rw [List.find?_eq_none]; intro kv hkv; have := hpre kv hkv; simp [this.1, this.2]
-    rw [this]
-    rcases actionMember_key a with hk | hk <;> simp [hk]
-  unfold actionRuleOf
-  rw [hfind]
-  cases a with
-  | action w => simp [actionMember, woomOfJson_woomJson w h]
-  | notAction w => simp [actionMember, woomOfJson_woomJson w h, kAction, kNotAction]
-
-theorem resourceRuleOf_written (a : ResourceRule) (h : a.isOneStar = false) (pre post : List (Bytes × Json))
-    (hpre : ∀ kv ∈ pre, kv.1 ≠ kResource ∧ kv.1 ≠ kNotResource) :
-    resourceRuleOf (pre ++ resourceMember a :: post) = some a := by
-  have hfind : takeVariant kResource kNotResource (pre ++ resourceMember a :: post) = some (resourceMember a) := by
-    unfold takeVariant
-    rw [List.find?_append]
-    have : List.find? (fun kv : Bytes × Json => decide (kv.1 = kResource) || decide (kv.1 = kNotResource)) pre = none := by
-      rw [List.find?_eq_none]; intro kv hkv; have := hpre kv hkv; simp [this.1, this.2]
-    rw [this]
-    rcases resourceMember_key a with hk | hk <;> simp [hk]
-  unfold resourceRuleOf
-  rw [hfind]
-  cases a with
-  | resource w => simp [resourceMember, woomOfJson_woomJson w h]
-  | notResource w => simp [resourceMember, woomOfJson_woomJson w h, kResource, kNotResource]
-
-theorem principalRuleOf_written (pr : Option PrincipalRule) (h : ∀ r, pr = some r → r.wf)
-    (post : List (Bytes × Json)) (hpost : ∀ kv ∈ post, kv.1 ≠ kPrincipal ∧ kv.1 ≠ kNotPrincipal) :
-    principalRuleOf (principalMembers pr ++ post) = pr := by
-  unfold principalRuleOf takeVariant
-  cases pr with
-  | none =>
-    have : List.find? (fun kv : Bytes × Json => decide (kv.1 = kPrincipal) || decide (kv.1 = kNotPrincipal)) post = none := by
-      rw [List.find?_eq_none]; intro kv hkv; have := hpost kv hkv; simp [this.1, this.2]
-    simp [principalMembers, this]
-  | some r =>
-    cases r with
-    | principal p =>
-      have := principalOfJson_principalJson p (h _ rfl)
-      simp [principalMembers, this]
-    | notPrincipal p =>
-      have := principalOfJson_principalJson p (h _ rfl)
-      simp [principalMembers, this, kPrincipal, kNotPrincipal]
-
-theorem principalMembers_keys (pr : Option PrincipalRule) :
-    ∀ kv ∈ principalMembers pr, kv.1 = kPrincipal ∨ kv.1 = kNotPrincipal := by
-  intro kv h
-  cases pr with
-  | none => simp [principalMembers] at h
-  | some r => cases r <;> simp [principalMembers] at h <;> simp [h]
-
-/-- the loop of `Statement::visit_map` over the members written for a statement -/
-theorem stmt_fold_written (s : Statement) :
-    List.foldlM stmtField {} ([(kSid, optStrJson s.sid)] ++ principalMembers s.principal ++
-        [(kEffect, .str (effectName s.effect)), actionMember s.action, resourceMember s.resource,
-         (kCondition, optConditionJson s.condition)]) =
-    (optCondition (optConditionJson s.condition)).map fun c =>
-      { sid := some s.sid, effect := some s.effect, condition := some c,
-        collect := principalMembers s.principal ++ [actionMember s.action, resourceMember s.resource] } := by
-  have ha : ∀ acc : StAcc, stmtField acc (actionMember s.action)
-      = some { acc with collect := acc.collect ++ [actionMember s.action] } := by
-    intro acc
-    cases s.action <;> simp [actionMember, stmtField, kAction, kNotAction, kSid, kEffect, kCondition]
-  have hr : ∀ acc : StAcc, stmtField acc (resourceMember s.resource)
-      = some { acc with collect := acc.collect ++ [resourceMember s.resource] } := by
-    intro acc
-    cases s.resource <;> simp [resourceMember, stmtField, kResource, kNotResource, kSid, kEffect, kCondition]
-  cases hp : s.principal with
-  | none =>
-    simp [principalMembers, List.foldlM_cons, stmtField_sid, stmtField_effect, stmtField_condition, ha, hr,
-      optString_optStrJson, effect_effectName]
-  | some r =>
-    cases r with
-    | principal p =>
-      simp [principalMembers, List.foldlM_cons, stmtField_sid, stmtField_effect, stmtField_condition, ha, hr,
-        optString_optStrJson, effect_effectName,
-        stmtField_other _ kPrincipal _ (by decide) (by decide) (by decide)]
-    | notPrincipal p =>
-      simp [principalMembers, List.foldlM_cons, stmtField_sid, stmtField_effect, stmtField_condition, ha, hr,
-        optString_optStrJson, effect_effectName,
-        stmtField_other _ kNotPrincipal _ (by decide) (by decide) (by decide)]
-
+/-- the loop of `Statement::visit_map` over the members written for a statement fills every slot with
+    the value written -/
 theorem statementOfJson_statementJson (s : Statement) (hw : s.mapsWf) (hs : s.hasOneStar = false) :
     statementOfJson (statementJson s) = some s := by
   rw [hasOneStar_eq] at hs
   simp only [Bool.or_eq_false_iff] at hs
-  simp only [statementJson, statementOfJson, statementOfMembers]
-  rw [stmt_fold_written s, optCondition_written s.condition hw.2]
-  simp only [Option.map_some, Option.bind_some, Option.getD_some]
-  have hpk := principalMembers_keys s.principal
-  have hA : actionRuleOf (principalMembers s.principal ++ [actionMember s.action, resourceMember s.resource])
-      = some s.action := by
-    apply actionRuleOf_written s.action hs.1
-    intro kv hkv
-    rcases hpk kv hkv with h | h <;> rw [h] <;> decide
-  have hR : resourceRuleOf (principalMembers s.principal ++ [actionMember s.action, resourceMember s.resource])
-      = some s.resource := by
-    have := resourceRuleOf_written s.resource hs.2 (principalMembers s.principal ++ [actionMember s.action]) []
-      (by
-        intro kv hkv
-        simp only [List.mem_append, List.mem_singleton] at hkv
-        rcases hkv with hkv | hkv
-        · rcases hpk kv hkv with h | h <;> rw [h] <;> decide
-        · rcases actionMember_key s.action with h | h <;> rw [hkv, h] <;> decide)
-    simpa using this
-  have hP : principalRuleOf (principalMembers s.principal ++ [actionMember s.action, resourceMember s.resource])
-      = s.principal := by
-    apply principalRuleOf_written s.principal hw.1
-    intro kv hkv
-    simp only [List.mem_cons, List.not_mem_nil, or_false] at hkv
-    rcases hkv with hkv | hkv
-    · rcases actionMember_key s.action with h | h <;> rw [hkv, h] <;> decide
-    · rcases resourceMember_key s.resource with h | h <;> rw [hkv, h] <;> decide
-  rw [hA, hR, hP]
-  rfl
+  obtain ⟨sid, pr, ef, ac, re, co⟩ := s
+  obtain ⟨hwp, hwc⟩ := hw
+  obtain ⟨hsa, hsr⟩ := hs
+  have hc := optCondition_written co hwc
+  have hA : ∀ w, ac = .action w ∨ ac = .notAction w → woomOfJson (woomJson w) = some w := by
+    intro w h
+    apply woomOfJson_woomJson
+    rcases h with h | h <;> subst h <;> exact hsa
+  have hR : ∀ w, re = .resource w ∨ re = .notResource w → woomOfJson (woomJson w) = some w := by
+    intro w h
+    apply woomOfJson_woomJson
+    rcases h with h | h <;> subst h <;> exact hsr
+  have hP : ∀ p, pr = some (.principal p) ∨ pr = some (.notPrincipal p) → principalOfJson (principalJson p) = some p := by
+    intro p h
+    apply principalOfJson_principalJson
+    rcases h with h | h <;> exact hwp _ h
+  rcases pr with _ | ⟨p | p⟩ <;> cases ac <;> cases re <;>
+    simp [statementJson, statementOfJson, statementOfMembers, principalMembers, actionMember, resourceMember,
+      List.foldlM_cons, stmtField_sid, stmtField_principal, stmtField_notPrincipal, stmtField_effect,
+      stmtField_action, stmtField_notAction, stmtField_resource, stmtField_notResource, stmtField_condition,
+      optString_optStrJson, effect_effectName, hc, hA, hR, hP]
 
 theorem statementsOfJson_statementsJson (st : OneOrMore Statement)
     (hw : ∀ s ∈ st.toList, s.mapsWf) (hs : ∀ s ∈ st.toList, s.hasOneStar = false) :
